@@ -81,6 +81,11 @@ func (m *modSet) union(o *modSet) {
 // register materialises the heap keys in a ctx.
 func (m *modSet) register(c *Ctx) *modSet {
 	m.keys = map[string]bool{}
+	if len(m.descs) > 48 {
+		// a very large inferred frame is treated as "everything" (sound, and keeps the VC small)
+		m.all = true
+		return m
+	}
 	for _, d := range m.descs {
 		switch d.kind {
 		case 'F':
